@@ -638,3 +638,9 @@ _NEW_DT = "        if isinstance(self, View):\n            indices, params = sel
 for _p in ("C10", "C19", "C18"):
     P(_p, BASE, _OLD_DT, _NEW_DT)
 B("C19", BASE, _OLD_DT, _NEW_DT.replace("self._overwrite_trainables(indices, params, num_params)", "self._overwrite_trainables(params, indices, num_params)"), "R-C19-argnames")
+# a comprehension that uses its counter only to index sequences walks them in lock step (index form of the zip comprehension)
+_OLD_G = "        recs = jnp.asarray(\n            [\n                state[rec_state][rec_ind]\n                for rec_state, rec_ind in zip(rec_states, rec_inds)\n            ]\n        )"
+_NEW_G = "        recs = jnp.stack(\n            [state[rec_states[k]][rec_inds[k]] for k in range(len(rec_inds))]\n        )"
+for _p in ("C06", "C07", "C08"):
+    P(_p, IG, _OLD_G, _NEW_G)
+B("C08", IG, _OLD_G, _NEW_G.replace("rec_inds[k]]", "rec_inds[-k]]"), "R-C08-recs")
